@@ -131,20 +131,109 @@ def fval(x):
     return x * x + 3 * x + 7
 
 
+# ---- unusual but legal results (mode 2: the evaluation RETURNS UNUSUAL[x % len]) and exceptions of user code
+# (mode 3: it RAISES a fresh copy of EXC_KINDS[x % len]).  A result is reported as the code -(1+u), an exception as
+# -(100+k), and only when type and value came back exactly (repr distinguishes -0.0, numpy scalars, 0-d arrays).
+import numpy as _np
+
+UNUSUAL = [0, 0.0, -0.0, False, None, "", [], (), {}, _np.float64(0.0), _np.array(0.0), _np.array([1.5]), _np.int64(0),
+           float("nan"), True, -7, [None], _np.bool_(False), _np.float64(-0.0), 0j]
+
+
+class NumberedError(Exception):
+    """an exception of user code that happens to carry the attribute names of a job result"""
+
+    def __init__(self, x):
+        super().__init__(x)
+        self.number = x
+        self.result = None
+        self.result_list_row = [x]
+
+
+class FalsyError(Exception):
+    """an exception object that is false in a boolean context"""
+
+    def __bool__(self):
+        return False
+
+    def __len__(self):
+        return 0
+
+
+def make_exc(k):
+    return [lambda: ValueError(), lambda: KeyError(0), lambda: NumberedError(0), lambda: ZeroDivisionError("division by zero"),
+            lambda: OSError(0, ""), lambda: FalsyError(), lambda: NumberedError(1), lambda: AssertionError()][k]()
+
+
+N_EXC = 8
+
+
+def _same(a, b):
+    return type(a) is type(b) and repr(a) == repr(b)
+
+
+def enc(v):
+    """a yielded value as JSON: ints as they are, recognised unusual values as their code"""
+    if type(v) is int and v >= 7:
+        return v
+    for u, proto in enumerate(UNUSUAL):
+        if _same(v, proto):
+            return -(1 + u)
+    return "unrecognised:%s:%s" % (type(v).__name__, repr(v)[:60])
+
+
+def enc_exc(e):
+    """a raised exception: WorkError(x) -> x, a recognised unusual kind -> its code, anything else -> None"""
+    if type(e) is WorkError:
+        return e.args[0] if e.args else None
+    for k in range(N_EXC):
+        proto = make_exc(k)
+        if type(e) is type(proto) and e.args == proto.args and getattr(e, "number", None) == getattr(proto, "number", None):
+            return -(100 + k)
+    return None
+
+
+def outcome_of(x, mode):
+    """what evaluating (x, mode) does, after the gate"""
+    if mode == 1:
+        raise WorkError(x)
+    if mode == 2:
+        return UNUSUAL[x % len(UNUSUAL)]
+    if mode == 3:
+        if x % N_EXC == 3:
+            return 1 // 0
+        raise make_exc(x % N_EXC)
+    return fval(x)
+
+
 def work(args):
     """the function mapped over the batch: args = [jid, x, mode, delay_ms]"""
     jid, x, mode, delay = args
     _enter(jid, delay)
-    if mode == 1:
-        raise WorkError(x)
-    return fval(x)
+    return outcome_of(x, mode)
+
+
+SCALARS = [0, 0.0, -0.0, False, None, _np.float64(2.5), _np.int64(3), _np.float64(0.0), True, -4, 1.5, _np.bool_(False)]
+
+
+def scalar_arg(x):
+    """batch entry x of a scalar batch as the plain value handed to map: 1..59 as they are, 100+s -> SCALARS[s]"""
+    return SCALARS[x - 100] if x >= 100 else x
 
 
 def work_scalar(args):
-    """mapped over plain numbers: SneakyPool.map wraps a non-iterable argument as (x,)"""
-    x = args[0]
-    _enter(x)
-    return fval(x)
+    """mapped over plain non-iterable values: SneakyPool.map wraps such an argument as (x,); the evaluation must see
+    exactly that value (type included)"""
+    v = args[0]
+    if type(v) is int and v >= 1:
+        _enter(v)
+        return fval(v)
+    for s_, proto in enumerate(SCALARS):
+        if _same(v, proto):
+            _enter(100 + s_)
+            return 500000 + s_
+    _enter(99)
+    return 499999
 
 
 def work_fit(args):
@@ -409,7 +498,7 @@ def evals_of(jids):
     return [EVALS[j] for j in jids]
 
 
-def consume(gen, abandon_after=None):
+def consume(gen, abandon_after=None, raw=False):
     ys, raised = [], None
     try:
         for k, y in enumerate(gen):
@@ -422,8 +511,9 @@ def consume(gen, abandon_after=None):
     except (Stall, CaseTimeout):
         raise
     except Exception as e:  # noqa
-        raised = [type(e).__name__, str(e)[:80]]
-    return ys, raised
+        code = enc_exc(e)
+        raised = ["WorkError", code] if code is not None else [type(e).__name__, str(e)[:80]]
+    return (ys if raw else [enc(y) for y in ys]), raised
 
 
 def serial_outcomes(batch, base):
@@ -446,15 +536,15 @@ def serial_of(batch, base, fitness):
     for i, (x, mode) in enumerate(batch["jobs"]):
         try:
             if batch.get("scalar"):
-                out.append(["ok", work_scalar([x])])
+                out.append(["ok", enc(work_scalar([scalar_arg(x)]))])
             elif batch.get("fitpos") is not None:
                 a = [base + i, x, mode]
                 a.insert(batch["fitpos"], fitness)
                 out.append(["ok", work_fit(a)])
             else:
-                out.append(["ok", work([base + i, x, mode, 0])])
-        except WorkError as e:
-            out.append(["exc", e.args[0]])
+                out.append(["ok", enc(work([base + i, x, mode, 0]))])
+        except Exception as e:  # noqa
+            out.append(["exc", enc_exc(e)])
     return out
 
 
@@ -469,7 +559,7 @@ def case_smap(c):
             jobs = batch["jobs"]
             st = sp.begin(batch["sched"])
             if batch.get("scalar"):
-                fn, args_list, jids = work_scalar, [x for x, _ in jobs], [x for x, _ in jobs]
+                fn, args_list, jids = work_scalar, [scalar_arg(x) for x, _ in jobs], [x for x, _ in jobs]
             elif batch.get("fitpos") is not None:
                 args_list = []
                 for i, (x, mode) in enumerate(jobs):
@@ -517,7 +607,7 @@ def case_smap_free(c):
             jobs = batch["jobs"]
             args_list = [(base + i, x, mode, d) for i, (x, mode, d) in enumerate(jobs)]
             big = bool(batch.get("big"))
-            ys, raised = consume(pool.map(work_big if big else work, args_list, log_info=False))
+            ys, raised = consume(pool.map(work_big if big else work, args_list, log_info=False), raw=big)
             if big:
                 bad = [1 for v, blob in ys if len(blob) != 1200000 or len(set(blob[:1000])) != 1]
                 ys = [v for v, blob in ys] if not bad else ["corrupt payload"]
@@ -554,7 +644,21 @@ def case_sneakier(c):
             return ["exc", type(e).__name__, str(e)[:80]]
 
     specs = c["pools"]
-    if c["order"] == "constructed-first":
+    if c["order"] in ("two-maps", "reenter"):
+        # ONE pool object used twice: two maps inside one with-block / the with-block entered a second time
+        sp = specs[0]
+        pool = SneakierPool(processes=c["procs"], fitness=Mul(sp["mul"]))
+        if c["order"] == "two-maps":
+            try:
+                with pool as p:
+                    for xs in (sp["xs"], sp["xs2"]):
+                        out.append(["ok", [int(v) for v in p.map(p.fitness, xs)]])
+            except Exception as e:  # noqa
+                out.append(["exc", type(e).__name__, str(e)[:80]])
+        else:
+            out.append(use(pool, sp["xs"]))
+            out.append(use(pool, sp["xs2"]))
+    elif c["order"] == "constructed-first":
         pools = [SneakierPool(processes=c["procs"], fitness=Mul(sp["mul"])) for sp in specs]
         for pool, sp in zip(pools, specs):
             out.append(use(pool, sp["xs"]))
@@ -720,9 +824,8 @@ class NumJob(process_mod.AbstractJob):
             if not GATED.value and self.delay:
                 time.sleep(self.delay / 1000.0)
             EVALS.bump(self.number)
-        if self.mode == 1:
-            raise WorkError(self.x)
-        return GridJobResult(SimpleNamespace(samples_summary=fval(self.x)), [self.number, fval(self.x)], self.number)
+        v = outcome_of(self.x, self.mode)
+        return GridJobResult(SimpleNamespace(samples_summary=v), [self.number, v], self.number)
 
 
 class WorkerJobQueue:
@@ -783,8 +886,8 @@ class GatedProcess(process_mod.Process):
 
 def describe(item):
     if isinstance(item, Exception):
-        return ["exc", item.args[0] if item.args else None]
-    return ["ok", item.number, item.result.samples_summary]
+        return ["exc", enc_exc(item)]
+    return ["ok", item.number, enc(item.result.samples_summary)]
 
 
 def keyed_views(items, total):
@@ -792,28 +895,38 @@ def keyed_views(items, total):
     rb = ResultBuilder(lists=[[0.0]] * total, grid_priors=[], paths=[None] * total)
     for it in good:
         rb.add(it)
-    summaries = [None if isinstance(s, Placeholder) else s for s in rb.sample_summaries]
+    summaries = [None if isinstance(s, Placeholder) else enc(s) for s in rb.sample_summaries]
     results = []
     for it in good:             # Sensitivity.run: results.append(result); results = sorted(results)
         results.append(it)
         results = sorted(results)
-    return summaries, [[r.number, r.result.samples_summary] for r in results]
+    return summaries, [[r.number, enc(r.result.samples_summary)] for r in results]
 
 
-def serial_jobs(jobs):
+def serial_jobs(jobs, nums=None):
     out = []
-    for number, (x, mode) in enumerate(jobs):
+    for i, (x, mode) in enumerate(jobs):
         try:
-            r = NumJob(number, x, mode).perform()
-            out.append(["ok", r.number, r.result.samples_summary])
-        except WorkError as e:
-            out.append(["exc", e.args[0]])
+            r = NumJob(nums[i] if nums else i, x, mode).perform()
+            out.append(["ok", r.number, enc(r.result.samples_summary)])
+        except Exception as e:  # noqa
+            out.append(["exc", enc_exc(e)])
     return out
+
+
+def counter_value():
+    """the next value of the class-level job counter AbstractJob._number, without drawing from it"""
+    import re as _re
+    m = _re.match(r"count\((\d+)\)", repr(process_mod.AbstractJob._number))
+    return int(m.group(1)) if m else -1
 
 
 def case_jobs(c):
     """Process.run_jobs steered: which worker takes which job and when the main loop polls"""
-    jobs = [NumJob(i, x, mode) for i, (x, mode) in enumerate(c["jobs"])]
+    nums = c.get("nums")
+    c0 = counter_value()
+    jobs = [NumJob(nums[i] if nums else i, x, mode) for i, (x, mode) in enumerate(c["jobs"])]
+    numbering = {"before": c0, "numbers": [j.number for j in jobs], "after": counter_value()}
     nw = c["cores"] - 1
     st = Steer(c["sched"], nw, shared_jobs=len(jobs))
     STEER[0] = st
@@ -824,15 +937,46 @@ def case_jobs(c):
             items.append(it)
     except AssertionError as e:
         inner = e.args[0] if e.args else None
-        raised = ["AssertionError", inner.args[0] if isinstance(inner, Exception) and inner.args else None]
+        raised = ["AssertionError", enc_exc(inner) if isinstance(inner, Exception) else None]
     except (Stall, CaseTimeout):
         raise
     except Exception as e:  # noqa
         raised = [type(e).__name__, str(e)[:80]]
     summaries, srt = keyed_views(items, len(jobs))
-    return {"serial": serial_jobs(c["jobs"]), "items": [describe(i) for i in items], "raised": raised,
-            "summaries": summaries, "sorted": srt, "evals": evals_of(range(len(jobs))),
+    return {"serial": serial_jobs(c["jobs"], nums), "items": [describe(i) for i in items], "raised": raised,
+            "summaries": summaries, "sorted": srt, "evals": evals_of(range(len(jobs))), "numbering": numbering,
             "left": [len(b) for b in st.bufs], "ticks": st.ticks, "forced": st.forced}
+
+
+def case_jobs_seq(c):
+    """a HISTORY of run_jobs calls in one process (one after the other, each with its own jobs, numbering, worker count
+    and schedule); what carries over between two calls is reported too: the class-level job counter and live children"""
+    out = []
+    for call in c["calls"]:
+        # jobs whose number comes from the class-level counter (SneakyJob, or any AbstractJob built without a number),
+        # created between two calls: explicit numbers of the next call must not depend on how far the counter is
+        drawn = [NumJob(None, 0, 0).number for _ in range(call.get("draw", 0))]
+        r = case_jobs(dict(call, kind="jobs"))
+        r["drawn"] = drawn
+        time.sleep(0.02)
+        r["children_left"] = len([p for p in mp.active_children() if p.is_alive()])
+        out.append(r)
+        cleanup_children()
+    return {"calls": out}
+
+
+def case_numbering(c):
+    """AbstractJob numbering: a sequence of job constructions, with an explicit number or without (class-level counter)"""
+    c0 = counter_value()
+    numbers = []
+    for spec in c["specs"]:
+        if spec is None:
+            numbers.append(NumJob(None, 0, 0).number)
+        elif spec == "sneaky":
+            numbers.append(sneaky_mod.SneakyJob(work, 1, 2).number)
+        else:
+            numbers.append(NumJob(spec, 0, 0).number)
+    return {"before": c0, "numbers": numbers, "after": counter_value()}
 
 
 def case_jobs_free(c):
@@ -845,7 +989,7 @@ def case_jobs_free(c):
             items.append(it)
     except AssertionError as e:
         inner = e.args[0] if e.args else None
-        raised = ["AssertionError", inner.args[0] if isinstance(inner, Exception) and inner.args else None]
+        raised = ["AssertionError", enc_exc(inner) if isinstance(inner, Exception) else None]
     except (Stall, CaseTimeout, RaceHang):
         raise
     except Exception as e:  # noqa
@@ -1155,7 +1299,7 @@ def case_jobs_race(c):
     return {"hangs": hangs, "wrong": wrong, "stuck": stuck, "calls": c["repeat"]}
 
 
-KINDS = {"pickle_walk": case_pickle_walk, "emcee_run": case_emcee_run, "smap_twofit": case_smap_twofit, "sneakier": case_sneakier, "grid_fit": case_grid_fit, "sens_fit": case_sens_fit, "jobs_race": case_jobs_race, "smap": case_smap, "smap_free": case_smap_free, "init": case_init, "emcee": case_emcee,
+KINDS = {"jobs_seq": case_jobs_seq, "numbering": case_numbering, "pickle_walk": case_pickle_walk, "emcee_run": case_emcee_run, "smap_twofit": case_smap_twofit, "sneakier": case_sneakier, "grid_fit": case_grid_fit, "sens_fit": case_sens_fit, "jobs_race": case_jobs_race, "smap": case_smap, "smap_free": case_smap_free, "init": case_init, "emcee": case_emcee,
          "jobs": case_jobs, "jobs_free": case_jobs_free}
 
 
